@@ -5,6 +5,12 @@ import (
 	"github.com/mk6i/mkdb/storage"
 )
 
+// insertValidator is implemented by relation managers that can check a row
+// without storing it.
+type insertValidator interface {
+	ValidateInsert(tableName string, cols []string, vals []interface{}) error
+}
+
 func EvaluateInsert(q sql.InsertStatement, rm RelationManager) (int, error) {
 	rm.StartTxn()
 	defer rm.EndTxn()
@@ -12,6 +18,16 @@ func EvaluateInsert(q sql.InsertStatement, rm RelationManager) (int, error) {
 	tbl := q.TableName
 	cols := q.InsertColumnsAndSource.InsertColumnList.ColumnNames
 	vals := q.InsertColumnsAndSource.QueryExpression.(sql.TableValueConstructor).TableValueConstructorList
+
+	// check every row before storing the first one, so that a statement
+	// that fails leaves nothing behind
+	if v, ok := rm.(insertValidator); ok {
+		for _, tvc := range vals {
+			if err := v.ValidateInsert(tbl, cols, tvc.RowValueConstructorList); err != nil {
+				return 0, err
+			}
+		}
+	}
 
 	var batch storage.WALBatch
 
